@@ -13,6 +13,8 @@ written are proved on concrete witnesses below (`…_witness`), they are the rep
 import NeoModel.Model.Queue
 import NeoModel.Proofs.QueueChain
 import NeoModel.Proofs.QueueReach
+import NeoModel.Model.StateSync
+import NeoModel.Proofs.StateSyncRestore
 namespace NeoModel.Queue
 
 private def el (i t : Nat) : Elem := { idx := i, tag := t, ok := true }
@@ -234,3 +236,108 @@ theorem queue_len_drift_witness :
   exact ⟨(calm_iff _ _).2 (by decide), by decide, by decide, by decide, by decide⟩
 
 end NeoModel.Queue
+
+namespace NeoModel.StateSync
+
+/-! ## Part (b): state synchronisation (MPT-based mode), model `Model/StateSync.lean` -/
+
+/-- What a peer sends: a decodable node (the receiver computes its hash with `H`) or undecodable bytes. -/
+def recv (H : SNode → Hash) : Option SNode → Item
+  | some n => .node (H n) n
+  | none => .garbage
+
+/-
+Full statement (C20 b): for every delivery order, batching and duplication of the nodes of trie `t`, every
+injection of wrong data and every restart point, the sync ends with store ⊇ nodes of `t` with the reference
+counts of C11, temporary storage = `lookup t`, and never accepts a node whose hash is not requested.
+
+Proved below (`billet_restore_exact_partial`): all of it for arbitrary delivery sequences and batches with
+arbitrary wrong data in between, over the pool-level model, for a collision-free hash `H`.
+Missing: (1) restart points — that the pool reconstruction of `defineSyncStage` (`rebuild`) returns exactly
+the pending set is not proved; it is executed by the driver and compared with the real module at every
+restart of the `sync` stream (that comparison found the panic fixed by 0dd24d5, see the example below);
+(2) `Billet.RestoreHashNode`'s in-memory walk/collapse is represented by its contract, its agreement with
+the real billet is established by the `sync` stream only; (3) the storage-item mode.
+-/
+
+/-- C20 (state sync, exactness). `db` is the node table of the source trie (well-formed as every MPT is),
+`H` a hash function that is collision-free and under which `db` is keyed. Feed the module ANY batches of
+ANY items — trie nodes in any order, duplicated, not yet requested, foreign nodes, garbage. Then
+(1) every `(hash, path)` ever restored is a position of the trie, each at most once, and the reference
+counter of a hash is the number of its restored positions; the temporary storage holds exactly the leaf
+values of the restored positions;
+(2) once the pool is empty, the restored positions are exactly the positions of the trie: every node of
+the trie is in the store, the counter of `h` equals the number of positions of `h`, and the temporary
+storage is exactly the key-value content of the trie. -/
+theorem billet_restore_exact_partial (H : SNode → Hash) (hinj : ∀ a b, H a = H b → a = b)
+    (db : Hash → Option SNode) (root : Hash) (hkey : ∀ h m, db h = some m → H m = h)
+    (wf : WF db root) (fuel : Nat) (bs : List (List (Option SNode))) :
+    let s := batches db fuel (MS.init root) (bs.map (List.map (recv H)))
+    (∀ x ∈ s.done, Pos db root x.1 x.2) ∧ s.done.Nodup ∧
+    (∀ h, s.refs h = (s.done.filter (fun x => x.1 == h)).length) ∧
+    (∀ p v, (p, v) ∈ s.temp ↔ ∃ h n, (h, p) ∈ s.done ∧ db h = some n ∧ n.val = some v) ∧
+    (s.pool = [] →
+      (∀ h p, Pos db root h p ↔ (h, p) ∈ s.done) ∧
+      (∀ h p, Pos db root h p → 0 < s.refs h) ∧
+      (∀ p v, (p, v) ∈ s.temp ↔ ∃ h n, Pos db root h p ∧ db h = some n ∧ n.val = some v)) := by
+  intro s
+  have hok : ∀ b ∈ bs.map (List.map (recv H)), ∀ it ∈ b, ItemOk db it := by
+    intro b hb it hit
+    simp only [List.mem_map] at hb
+    obtain ⟨b0, _, rfl⟩ := hb
+    simp only [List.mem_map] at hit
+    obtain ⟨x, _, rfl⟩ := hit
+    cases x with
+    | none => trivial
+    | some n =>
+      intro m hm
+      exact hinj _ _ (hkey _ m hm).symm
+  have hi : Inv db root s := inv_batches db root wf fuel _ _ (inv_init db root) hok
+  refine ⟨hi.donePos, hi.doneNodup, hi.refsEq, hi.tempEq, ?_⟩
+  intro he
+  have hall : ∀ h p, Pos db root h p ↔ (h, p) ∈ s.done :=
+    fun h p => ⟨complete db root s hi he h p, fun hd => hi.donePos _ hd⟩
+  refine ⟨hall, ?_, ?_⟩
+  · intro h p hp
+    rw [hi.refsEq]
+    apply List.length_pos_of_mem (a := (h, p))
+    simp [(hall h p).1 hp]
+  · intro p v
+    rw [hi.tempEq]
+    constructor
+    · rintro ⟨h, n, hd, hn, hv⟩; exact ⟨h, n, (hall h p).2 hd, hn, hv⟩
+    · rintro ⟨h, n, hp, hn, hv⟩; exact ⟨h, n, (hall h p).1 hp, hn, hv⟩
+
+/-- C20 (state sync, wrong data is rejected and harmless): a node whose hash the module does not ask for
+(foreign, not yet requested, already restored — whatever its content) changes nothing at all; undecodable
+bytes end the batch with an error and leave the state as the preceding items made it. -/
+theorem wrong_data_rejected_harmless (db : Hash → Option SNode) (fuel : Nat) (s : MS) (h : Hash) (n : SNode)
+    (rest : List Item) (hu : ∀ q, (h, q) ∉ s.pool) :
+    restoreNode db fuel s h n = s ∧
+    deliver db fuel s (.node h n :: rest) = deliver db fuel s rest ∧
+    deliver db fuel s (.garbage :: rest) = (s, false) := by
+  refine ⟨restoreNode_unrequested db fuel s h n hu, ?_, rfl⟩
+  simp only [deliver, restoreNode_unrequested db fuel s h n hu]
+
+/-! a small trie for the examples: root 0 = branch {0 ↦ 1, 1 ↦ 2, 2 ↦ 2}; 1, 2 leaves -/
+def exDb : Hash → Option SNode
+  | 0 => some { val := none, kids := [([0], 1), ([1], 2), ([2], 2)] }
+  | 1 => some { val := some 11, kids := [] }
+  | 2 => some { val := some 22, kids := [] }
+  | _ => none
+
+-- non-vacuity: out of order, duplicated, with a foreign node and garbage in between: completes exactly
+example :
+    let n (i : Nat) : Item := match exDb i with | some x => .node i x | none => .garbage
+    let s := batches exDb 5 (MS.init 0) [[n 2, n 0, .garbage, n 1], [.node 77 { val := some 1, kids := [] }, n 2, n 2], [n 1]]
+    s.pool = [] ∧ s.done = [(0, []), (2, [1]), (2, [2]), (1, [0])] ∧ s.refs 2 = 2 ∧
+    s.temp = [([1], 22), ([2], 22), ([0], 11)] := by decide
+
+-- The repro of the restart panic fixed by 0dd24d5: root and leaf 2 are stored, leaf 1 is still missing;
+-- the traversal meets leaf 2 at two positions. As fixed, the reconstruction returns the pending set.
+example :
+    let n (i : Nat) : Item := match exDb i with | some x => .node i x | none => .garbage
+    let s := batches exDb 5 (MS.init 0) [[n 0, n 2]]
+    s.pool = [(1, [0])] ∧ (rebuild exDb 5 0 s).pool = [(1, [0])] := by decide
+
+end NeoModel.StateSync
